@@ -169,3 +169,20 @@ def loop_fills(fn):
 
 def _bound_in(node, name):
     return any(isinstance(n, ast.Name) and n.id == name and isinstance(n.ctx, (ast.Store, ast.Del)) for n in ast.walk(node))
+
+
+def two_way_return(stmts):
+    """(test text, value text when true, value text when false) of a function tail written as `if c: return A else: return B`, or as
+    `if c: return A` followed by `return B`; a leading `not` is removed by exchanging the values; None when the tail has neither form"""
+    if not stmts:
+        return None
+    last = stmts[-1]
+    if isinstance(last, ast.If) and len(last.body) == 1 and len(last.orelse) == 1 and isinstance(last.body[0], ast.Return) and isinstance(last.orelse[0], ast.Return):
+        t, a, b = last.test, last.body[0].value, last.orelse[0].value
+    elif len(stmts) >= 2 and isinstance(last, ast.Return) and isinstance(stmts[-2], ast.If) and not stmts[-2].orelse and len(stmts[-2].body) == 1 and isinstance(stmts[-2].body[0], ast.Return):
+        t, a, b = stmts[-2].test, stmts[-2].body[0].value, last.value
+    else:
+        return None
+    if isinstance(t, ast.UnaryOp) and isinstance(t.op, ast.Not):
+        t, a, b = t.operand, b, a
+    return ast.unparse(t), (ast.unparse(a) if a is not None else None), (ast.unparse(b) if b is not None else None)
